@@ -67,10 +67,14 @@ def transforms(rng, case, coords, values):
     yield 'scale_values_pow2', True, coords, values * k, 1.0, k * k
     k = float(rng.choice([3.0, -1.7, 0.1]))
     yield 'scale_values', False, coords, values * k, 1.0, k * k
-    if case['kw']['maxlag'] is None or (isinstance(case['kw']['maxlag'], float) and case['kw']['maxlag'] < 1):
+    ml = case['kw']['maxlag']
+    if ml is None or isinstance(ml, str) or (isinstance(ml, float) and ml < 1):
+        # relative / unset maxlag (incl. 'median', 'mean'); small factors make the resolved maxlag < 1
         s = float(rng.choice([2.0, 0.25, 16.0]))
         yield 'scale_coords_pow2', True, coords * s, values, s, 1.0
-        s = float(rng.choice([3.0, 0.37, 11.0]))
+        s = float(rng.choice([1.0 / 256, 1.0 / 4096]))
+        yield 'scale_coords_pow2_small', True, coords * s, values, s, 1.0
+        s = float(rng.choice([3.0, 0.37, 11.0, 0.001]))
         yield 'scale_coords', False, coords * s, values, s, 1.0
 
 
@@ -93,6 +97,10 @@ def check_base(ctx, case):
     values = np.array(case['values'], float)
     ml = case['kw']['maxlag']
     ml_abs = V0.maxlag
+    within = np.sort(d0[d0 <= ml_abs * (1 + 1e-9)]) if ml_abs is not None else np.sort(d0)
+    if len(within) < 2 or within[-1] - within[0] <= 1e-9 * max(1.0, within[-1]):
+        ctx.reject('fewer-than-2-distinct-distances-within-maxlag')   # outside C02's precondition
+        return
     nonempty = int(np.sum(c0 > 0))
     for (name, exact, nc, nv, escale, xscale) in transforms(ctx.rng, case, coords, values):
         clustering = binf in ('kmeans', 'ward')
@@ -101,7 +109,7 @@ def check_base(ctx, case):
         if not exact and binf not in SMOOTH_BINNINGS and name.startswith(('rotate', 'translate', 'scale_coords')):
             # rule-based bin counts may flip on 1-ulp changes of the data range
             continue
-        if not exact and name in ('translate_real', 'rotate', 'scale_coords') and \
+        if not exact and name in ('translate_int', 'translate_real', 'rotate', 'scale_coords') and \
                 not margin_ok(d0, e0, ml_abs):
             ctx.count('skipped_edge_tie')
             continue
@@ -129,6 +137,15 @@ def check_base(ctx, case):
             bad = ('bin_count', c0.tolist(), c1.tolist())
         elif not all_close(x1, x0 * xscale, rel=tol_x):
             bad = ('experimental', (x0 * xscale).tolist(), x1.tolist())
+        if bad and clustering:
+            # the clustering back-end is not bit-reproducible on tie-heavy data (multi-threaded sums): if
+            # two constructions from the *same* input already differ, this is not an invariance violation
+            again = [observe(case) for _ in range(3)] + [observe(tc) for _ in range(3)]
+            if any(not all_close(a[0], again[0][0], rel=0) for a in again[1:3]) or \
+                    any(not all_close(a[0], again[3][0], rel=0) for a in again[4:]) or \
+                    not all_close(again[0][0], e0, rel=0):
+                ctx.count('clustering_backend_not_reproducible')
+                bad = None
         if bad:
             sig = dict(kind='metamorphic', transform=name, bin_func=str(binf), what=bad[0])
             ctx.violation('invariance-' + name, '%s changed under %s (bin_func=%s, estimator=%s): expected %r, got %r'
@@ -141,9 +158,10 @@ def check_base(ctx, case):
 
 
 def run(ctx):
-    for k in range(ctx.n(45, 500)):
+    for k in range(ctx.n(70, 700)):
         case = vario.gen_case(ctx.rng, nmax=32 if ctx.tier == 'quick' else 55, allow_custom=False,
-                              metrics=['euclidean'], dims=(2, 2, 3, 1))
+                              metrics=['euclidean'], dims=(2, 2, 3, 1),
+                              binnings=['even', 'even', 'even', 'uniform', 'uniform'] + vario.BINNINGS[2:])
         check_base(ctx, case)
     ctx.lean.flush()
 
